@@ -84,6 +84,20 @@ def schema_structure(ctx, schema: dict[str, Any], max_zones: int, meta: dict[str
         for dev, zs in zone_of.items():
             if len(zs) > 1:
                 ctx.violate("C15|structure|device-in-two-zones", "the schema lists one device under two zones of a controller", {"device": dev, "zones": sorted(zs), "controller": ctl_id, "history": meta})
+        # one role per device among the system-level single-holder roles (hot-water sensor / valve, heating valve,
+        # appliance control) and the zones
+        roles: dict[str, list[str]] = {}
+        for role, dev in (tcs.get("stored_hotwater") or {}).items():
+            if dev:
+                roles.setdefault(dev, []).append(role)
+        if (tcs.get("system") or {}).get("appliance_control"):
+            roles.setdefault(tcs["system"]["appliance_control"], []).append("appliance_control")
+        for dev, zs in zone_of.items():
+            if dev in roles:
+                roles[dev].append("zone " + sorted(zs)[0])
+        for dev, rs in roles.items():
+            if len(rs) > 1:
+                ctx.violate("C15|structure|device-in-two-roles", "the schema lists one device in two roles of a controller", {"device": dev, "roles": rs, "controller": ctl_id, "history": meta})
         ids |= {v for v in (tcs.get("stored_hotwater") or {}).values() if v}
         if app := (tcs.get("system") or {}).get("appliance_control"):
             ids.add(app)
